@@ -599,6 +599,18 @@ func (e *Env) evalCall(n *ast.CallExpr) TV {
 		bv := tt.Bound(id, "Int")
 		body := asTerm(e.bind(id, bv, types.Typ[types.UnsafePointer]).eval(n.Args[1]).V)
 		return TV{tt.Forall([]*Term{bv}, body), tBool}
+	case "owner":
+		p := asTerm(arg(0).V)
+		if p.Sort == "Slice" {
+			p = x.sArr(p)
+		}
+		return TV{x.ownerOf(e.st, p), types.Typ[types.UnsafePointer]}
+	case "fromPool":
+		// the object was sitting in a pool, or did not exist, in the pre-state: it cannot alias anything live there
+		p := asTerm(arg(0).V)
+		return TV{x.poolOrFresh(e.old, p), tBool}
+	case "desc":
+		return TV{x.descT(asTerm(arg(0).V), asTerm(arg(1).V)), tBool}
 	case "redeemed":
 		p := asTerm(arg(0).V)
 		h := x.heap(e.st, "G$redeemed", arraySort("Int", "Bool"))
@@ -704,6 +716,37 @@ func (e *Env) evalCall(n *ast.CallExpr) TV {
 			}
 			rt := x.lookupType(p.Ret)
 			return TV{tt.UF("spec$"+fname, x.sortOf(rt), args...), rt}
+		}
+		if p.Opaque && !x.revealed(fname) {
+			// uninterpreted over snapshots of the argument values (slices: backing-array content and length)
+			var ts []*Term
+			for i := range n.Args {
+				a := arg(i)
+				at, ok := a.V.(*Term)
+				if !ok {
+					panic("contract: opaque predicate " + fname + " needs scalar or slice arguments")
+				}
+				if sl, isS := a.T.Underlying().(*types.Slice); isS && !x.isAggType(sl.Elem()) {
+					name := "A$" + typeName(sl.Elem())
+					srt := arraySort("Int", arraySort("Int", x.sortOf(sl.Elem())))
+					h := x.heap(e.st, name, srt)
+					ts = append(ts, tt.Select(h, x.sArr(at)), x.toMathInt(x.sLen(at)))
+				} else {
+					ts = append(ts, at)
+				}
+			}
+			r := tt.UF("op$"+fname, "Bool", ts...)
+			// lemmas: sufficient conditions, proved in the functions that reveal the predicate
+			for _, lm := range x.prog.Cons.Lemmas[fname] {
+				ne := &Env{x: x, st: e.st, old: e.old, vars: map[string]Value{}, vtypes: map[string]types.Type{}, fr: e.fr, depth: e.depth + 1}
+				for i, pn := range p.Params {
+					a := arg(i)
+					ne.vars[pn] = a.V
+					ne.vtypes[pn] = a.T
+				}
+				r = tt.Or(asTerm(ne.eval(lm.Expr).V), r)
+			}
+			return TV{r, tBool}
 		}
 		if e.depth > 30 {
 			panic("contract: predicate expansion too deep (recursive pred?) " + fname)
@@ -864,6 +907,12 @@ func (e *Env) lvalueTargets(ex interface{}) []modTarget {
 		case "held":
 			p := e.eval(n.Args[0])
 			return []modTarget{{heap: "G$held", sort: arraySort("Int", "Bool"), idx: asTerm(p.V)}}
+		case "owner":
+			p := asTerm(e.eval(n.Args[0]).V)
+			if p.Sort == "Slice" {
+				p = x.sArr(p)
+			}
+			return []modTarget{{heap: "G$owner", sort: arraySort("Int", "Int"), idx: p}}
 		case "ghost":
 			hn, _ := strconv.Unquote(n.Args[0].(*ast.BasicLit).Value)
 			return []modTarget{{heap: hn, whole: true}}
@@ -1039,4 +1088,16 @@ func (x *Exec) embeddersOf(heap string) []string {
 		}
 	}
 	return out
+}
+
+func (x *Exec) revealed(name string) bool {
+	if x.con == nil {
+		return false
+	}
+	for _, r := range x.con.Reveal {
+		if r == name || r == "*" {
+			return true
+		}
+	}
+	return false
 }
